@@ -61,6 +61,16 @@ func (r *Rig) Dial() *Peer {
 	return &Peer{Raw: c, SrvEnd: s, rw: c, Log: r.Log}
 }
 
+// DialWith is Dial with the server end prepared (fault injection) before the server gets it.
+func (r *Rig) DialWith(prep func(srv *memconn.Conn)) *Peer {
+	c, s := memconn.Pipe(r.Log)
+	c.SetStallDetect(true)
+	c.SetWatchdog(Watchdog)
+	prep(s)
+	r.L.Push(s)
+	return &Peer{Raw: c, SrvEnd: s, rw: c, Log: r.Log}
+}
+
 // DialTLS creates a connection whose server end is wrapped in tls.Server (implicit TLS).
 func (r *Rig) DialTLS() (*Peer, error) {
 	c, s := memconn.Pipe(r.Log)
